@@ -3,6 +3,9 @@
 package c03
 
 import (
+	"os"
+	"strings"
+
 	"context"
 	"fmt"
 	"reflect"
@@ -10,6 +13,7 @@ import (
 	"sync/atomic"
 	"testing"
 	"time"
+	"verif/harness/internal/stores"
 
 	ebu "github.com/jilio/ebu"
 
@@ -28,7 +32,7 @@ func tgt1(context.Context, rA) {}
 func TestC03Reentrancy(t *testing.T) {
 	run := vk.New("C03", "reentrancy")
 	defer run.Finish()
-	sites := []string{"handler", "ctxhandler", "asynchandler", "filter", "before", "beforectx", "after", "afterctx", "replayhandler", "asyncduringshutdown", "panichandler"}
+	sites := []string{"handler", "ctxhandler", "asynchandler", "filter", "before", "beforectx", "after", "afterctx", "replayhandler", "asyncduringshutdown", "panichandler", "replayphase|memory", "replayphase|memory-paged", "replayphase|sqlite-mem", "replayphase|sqlite-file", "replayphase|sqlite-batch2", "replayphase|durable"}
 	calls := []string{"pub-same", "pub-other", "subscribe", "subscribectx", "unsubscribe", "clear", "clearall", "has", "count"}
 	optss := []string{"-", "once", "sequential", "async+sequential"}
 	idx := 0
@@ -131,6 +135,19 @@ func scenario(site, call, opt string) string {
 	if site == "replayhandler" || site == "asyncduringshutdown" {
 		opts = append(opts, ebu.WithStore(ebu.NewMemoryStore()))
 	}
+	if kind, ok := strings.CutPrefix(site, "replayphase|"); ok {
+		// a handler registered through SubscribeWithReplay, invoked for stored events during the replay
+		// phase (the store is being read at that moment), calls back into the bus
+		st, err := stores.Open(kind, os.Getenv("VERIF_SCRATCH"))
+		if err != nil {
+			return "open " + kind + ": " + err.Error()
+		}
+		defer func() { st.Close(); st.Remove() }()
+		opts = append(opts, ebu.WithStore(st.Store))
+		if _, isSub := st.Store.(ebu.SubscriptionStore); !isSub {
+			opts = append(opts, ebu.WithSubscriptionStore(ebu.NewMemoryStore()))
+		}
+	}
 	gate := make(chan struct{})
 	bus = ebu.New(opts...)
 	var so []ebu.SubscribeOption
@@ -158,6 +175,12 @@ func scenario(site, call, opt string) string {
 		ebu.Subscribe(bus, func(rA) {}, append(so, ebu.WithFilter(func(rA) bool { reenter(); return true }))...)
 	case "panichandler":
 		ebu.Subscribe(bus, func(rA) { panic("c03: handler panics") }, so...)
+	case "replayphase|memory", "replayphase|memory-paged", "replayphase|sqlite-mem", "replayphase|sqlite-file", "replayphase|sqlite-batch2", "replayphase|durable":
+		ebu.Publish(bus, rA{N: 1})
+		ebu.Publish(bus, rA{N: 3})
+		if err := ebu.SubscribeWithReplay(context.Background(), bus, "sub", func(rA) { reenter() }, so...); err != nil {
+			return "SubscribeWithReplay: " + err.Error()
+		}
 	case "asyncduringshutdown":
 		// an async handler on a persistent bus that is still in flight when Shutdown is called and
 		// calls back into the bus while Shutdown waits for it
@@ -188,6 +211,9 @@ func scenario(site, call, opt string) string {
 		return "the callback site was never reached"
 	}
 	// visible effect of the re-entrant call
+	if strings.HasPrefix(site, "replayphase|") && (call == "clear" || call == "clearall") {
+		return "" // the live registration of the subscription itself follows the replay phase
+	}
 	switch call {
 	case "pub-other":
 		if otherRan != 1 {
